@@ -269,7 +269,7 @@ Section WithQueryer.
     apply balc_bind; [apply lookup_balc|]. intros [ | | | | ].
     - (* LResp *)
       apply balc_choose. intros [|[|cls]] _.
-      + destruct (inspectb _) as [E|E]; [|apply balc_ret]. apply REC. apply ob_level; exact E.
+      + destruct (inspectb _) as [E|E]; [|apply validated_balc; apply balc_ret]. apply REC. apply ob_level; exact E.
       + destruct (inspectb _) as [E|E]; [|apply validated_balc; apply answer_step_balc]. apply REC. apply ob_level; exact E.
       + apply balc_choose. intros [|[|[|[|[|[|sub]]]]]] _; try apply balc_ret.
         * destruct (inspectb _) as [E|E]; [|apply balc_ret]. apply REC. apply ob_level; exact E.
